@@ -1,0 +1,10 @@
+//go:build !verif
+
+package keeper
+
+import (
+	sdk "github.com/cosmos/cosmos-sdk/types"
+)
+
+// verifRouteHook is a no-op unless the code is built with the tag `verif` (see verif_hook.go).
+func verifRouteHook(sdk.Context, uint64) {}
